@@ -86,7 +86,7 @@ def build_finished(it, env, P, conf, large, variant):
               delivery_code=CF.esym(P, "delivery_code", f"{CF.DEFS}.DeliveryCode"), file_status=CF.esym(P, "file_status", f"{CF.DEFS}.FileStatus"))
     first = [F("condition_code", 4) if variant != "fault location" else K(4, 4), K(1, 0), F("delivery_code", 1), F("file_status", 2)]
     body = list(first)
-    if variant in ("two responses", "fault location"):
+    if variant in ("two responses", "fault location", "two responses, fault location omitted"):
         resp = []
         for n in (1, 2):
             o, sp, _ = fs_response_tlv(it, env, P, n)
@@ -100,6 +100,12 @@ def build_finished(it, env, P, conf, large, variant):
     if variant == "no TLVs (None)":
         # the constructor and the setter accept None for the response list (Optional in the setter's signature)
         pk["file_store_responses"] = NONE
+    if variant == "two responses, fault location omitted":
+        # (only built by C11's setter sequences; not one of the registered pack variants)
+        tlv, _tspec, _ = entity_id_tlv(it, env, P, "fault_entity")
+        pk["fault_location"] = tlv
+        pk["condition_code"] = CF.enumc(P, f"{CF.DEFS}.ConditionCode", 0)
+        body = [K(4, 0), K(1, 0), F("delivery_code", 1), F("file_status", 2)] + body[len(first):]
     if variant in ("fault location omitted", "fault location omitted (unsupported checksum type)"):
         # NO_ERROR / UNSUPPORTED_CHECKSUM_TYPE (727.0-B-5 5.2.3): a stored fault location is neither packed nor counted
         code = 0 if variant == "fault location omitted" else 0b1011
